@@ -65,6 +65,12 @@ func (m *MDP) DecodeFromBytes(data []byte, df gopacket.DecodeFeedback) error {
 			break
 		}
 		t := data[offset]
+		if t != MdpTlvEnd {
+			if offset+2 > m.Length || offset+2+int(data[offset+1]) > m.Length {
+				df.SetTruncated()
+				return fmt.Errorf("MDP TLV at offset %d exceeds packet length %d", offset, m.Length)
+			}
+		}
 		switch t {
 		case MdpTlvDeviceInfo:
 			offset += 2
